@@ -14,6 +14,7 @@ import (
 	"bytes"
 	"encoding/json"
 	"fmt"
+	"math"
 	"sort"
 	"strconv"
 	"strings"
@@ -27,6 +28,21 @@ var (
 	TimeBase int64 = 0
 	TimeUnit int64 = 1
 )
+
+// RatioFloats makes FromConst render a float that is the correctly rounded quotient of two
+// small integers as ["ratio",p,q] in lowest terms (q > 0), the form the specification uses
+// for averages (TLA+ has no reals).
+var RatioFloats = false
+
+func asRatio(f float64) (int64, int64, bool) {
+	for q := int64(1); q <= 64; q++ {
+		p := math.Round(f * float64(q))
+		if math.Abs(p) < 1e9 && float64(p)/float64(q) == f {
+			return int64(p), q, true
+		}
+	}
+	return 0, 0, false
+}
 
 // Atom is a predicate applied to terms.
 type Atom struct {
@@ -180,6 +196,11 @@ func FromConst(c ast.Constant) any {
 		return []any{"y", c.Symbol}
 	case ast.Float64Type:
 		f, _ := c.Float64Value()
+		if RatioFloats {
+			if p, q, ok := asRatio(f); ok {
+				return []any{"ratio", p, q}
+			}
+		}
 		return []any{"f", strconv.FormatFloat(f, 'g', -1, 64)}
 	case ast.TimeType:
 		n, _ := c.TimeValue()
